@@ -217,7 +217,7 @@ type mutation struct {
 }
 
 // treeMutations enumerates the structural mutations at every JSON path of one file.
-func treeMutations(file string, tree interface{}, uris []string) []mutation {
+func treeMutations(file string, tree interface{}, uris []string, suffixes []string) []mutation {
 	var out []mutation
 	var paths [][]string
 	jsonPaths(tree, nil, &paths)
@@ -282,6 +282,12 @@ func treeMutations(file string, tree interface{}, uris []string) []mutation {
 			rep := rep
 			out = append(out, mutation{file, fmt.Sprintf("%s:replace%d", ps, ri), func(tr interface{}) interface{} { return setPath(tr, path, doc.Clone(rep), false) }})
 		}
+		if path[len(path)-1] == "didSuffix" { // the reference points at another DID of the same batch (duplicate suffix with consistent counts)
+			for si, sfx := range suffixes {
+				sfx := sfx
+				out = append(out, mutation{file, fmt.Sprintf("%s:other-suffix%d", ps, si), func(tr interface{}) interface{} { return setPath(tr, path, sfx, false) }})
+			}
+		}
 		if strings.HasSuffix(strings.ToLower(path[len(path)-1]), "uri") {
 			for ui, u := range uris {
 				u := u
@@ -294,7 +300,7 @@ func treeMutations(file string, tree interface{}, uris []string) []mutation {
 
 func c14(r *hx.Run) {
 	fx.Quiet()
-	r.Rule = "six valid batch file sets (all four types; creates only; updates only; deactivates only; recover+update; 6 operations) are decoded to JSON trees; every structural mutation at every JSON path of every file (delete, duplicate, swap, null, [], {}, \"\", 0, true, foreign values, every URI retargeted to another file / itself / missing / over-long / empty; thorough: all pairs of mutations on two different files), entries moved between lists, count skews, every truncation of every compressed file, gzip header/trailer substitutions, uncompressed content, exact size and decompression boundaries per size parameter, the URI length boundary, an anchor-string grammar, and every subset of failing CAS reads x alternate-source configurations are served to the real OperationProvider: it must return an error or operations satisfying the success invariant (count, distinct suffixes, validated deltas, parseable signed data) and never panic; the listed rejection classes must be errors. Non-trivial: distinct mutated inputs that are rejected plus those accepted with the invariant checked."
+	r.Rule = "six valid batch file sets (all four types; creates only; updates only; deactivates only; recover+update; 6 operations) are decoded to JSON trees; every structural mutation at every JSON path of every file (delete, duplicate, swap, null, [], {}, \"\", 0, true, foreign values, every didSuffix reference pointed at every other DID of the batch, every URI retargeted to another file / itself / missing / over-long / empty; thorough: all pairs of mutations on two different files), entries moved between lists, each operation duplicated consistently in every file that references it with the anchor count raised, count skews, every truncation of every compressed file, gzip header/trailer substitutions, uncompressed content, exact size and decompression boundaries per size parameter, the URI length boundary, an anchor-string grammar, and every subset of failing CAS reads x alternate-source configurations are served to the real OperationProvider: it must return an error or operations satisfying the success invariant (count, distinct suffixes, validated deltas, parseable signed data) and never panic; the listed rejection classes must be errors. Non-trivial: distinct mutated inputs that are rejected plus those accepted with the invariant checked."
 	p := fx.DefaultProtocol()
 	dids := []*fx.DIDOps{fx.NewDIDOps(fx.Ed25519, fx.SHA256, "a"), fx.NewDIDOps(fx.Ed25519, fx.SHA256, "b"), fx.NewDIDOps(fx.P256, fx.SHA256, "c"),
 		fx.NewDIDOps(fx.Ed25519, fx.SHA256, "d"), fx.NewDIDOps(fx.Ed25519, fx.SHA256, "e"), fx.NewDIDOps(fx.Ed25519, fx.SHA256, "f")}
@@ -315,6 +321,10 @@ func c14(r *hx.Run) {
 		if base.err != nil || len(base.ops) != fs.count {
 			panic(fmt.Sprintf("baseline %s does not read back: %v", fs.name, base.err))
 		}
+		var suffixes []string
+		for _, op := range base.ops {
+			suffixes = append(suffixes, op.UniqueSuffix)
+		}
 		uris := []string{"", "missing-address", longURI}
 		for _, f := range fileOrder {
 			if a, ok := fs.addr[f]; ok {
@@ -324,7 +334,7 @@ func c14(r *hx.Run) {
 		var muts []mutation
 		for _, f := range fileOrder {
 			if t, ok := fs.trees[f]; ok {
-				muts = append(muts, treeMutations(f, t, uris)...)
+				muts = append(muts, treeMutations(f, t, uris, suffixes)...)
 			}
 		}
 		runMut := func(ms []mutation, count int) {
@@ -382,6 +392,57 @@ func c14(r *hx.Run) {
 				runMut([]mutation{sel[pairs[i].a], sel[pairs[i].b]}, fs.count)
 			})
 			r.Extra["pair_mutations_"+fs.name] = len(pairs)
+		}
+		// one operation duplicated consistently in every file that references it, with the anchor count raised: every count check
+		// passes, only the distinct-suffix rule can refuse it
+		{
+			find := func(file, label string) *mutation {
+				for i := range muts {
+					if muts[i].file == file && muts[i].label == label {
+						return &muts[i]
+					}
+				}
+				return nil
+			}
+			nOf := func(file, typ string) int {
+				t, _ := fs.trees[file].(map[string]interface{})
+				o, _ := t["operations"].(map[string]interface{})
+				l, _ := o[typ].([]interface{})
+				return len(l)
+			}
+			nC, nR := nOf("coreIndex", "create"), nOf("coreIndex", "recover")
+			type site struct {
+				typ, index, proof string
+				deltaBase         int
+			}
+			consistent := 0
+			for _, st := range []site{{"create", "coreIndex", "", 0}, {"recover", "coreIndex", "coreProof", nC}, {"update", "provIndex", "provProof", nC + nR}, {"deactivate", "coreIndex", "coreProof", -1}} {
+				for i := 0; i < nOf(st.index, st.typ); i++ {
+					var ms []mutation
+					want := 1
+					if m := find(st.index, fmt.Sprintf("operations/%s/%d:duplicate-element", st.typ, i)); m != nil {
+						ms = append(ms, *m)
+					}
+					if st.proof != "" {
+						want++
+						if m := find(st.proof, fmt.Sprintf("operations/%s/%d:duplicate-element", st.typ, i)); m != nil {
+							ms = append(ms, *m)
+						}
+					}
+					if st.deltaBase >= 0 {
+						want++
+						if m := find("chunk", fmt.Sprintf("deltas/%d:duplicate-element", st.deltaBase+i)); m != nil {
+							ms = append(ms, *m)
+						}
+					}
+					if len(ms) != want {
+						panic(fmt.Sprintf("consistent duplication of %s[%d] in set %s: found %d of %d mutations", st.typ, i, fs.name, len(ms), want))
+					}
+					runMut(ms, fs.count+1)
+					consistent++
+				}
+			}
+			r.Extra["consistent_duplications_"+fs.name] = consistent
 		}
 		// move an entry to another type's list (core index) and count skews between files that must agree
 		if ci, ok := fs.trees["coreIndex"].(map[string]interface{}); ok {
